@@ -150,7 +150,7 @@ class Family:
     """what TLC enumerated: the configurations, and per grid (kind, n, variant) the recipe, the porepy grid and the
     admissible Neumann sets of at most max_neu faces"""
 
-    def __init__(self, ctx, sizes, mus, lams, bcmodes=("dir", "mix"), max_neu=2, with_sets=True):
+    def __init__(self, ctx, sizes, mus, lams, bcmodes=("dir", "mix"), max_neu=2, with_sets=True, coefs=None, alphacat=()):
         rng = ctx.rng
         self.keys = [(k, tuple(n), v) for k in ("cart", "simplex") for n in sorted(sizes, key=lambda t: (len(t), t))
                      for v in ("plain", "perturbed")]
@@ -159,12 +159,15 @@ class Family:
         exported = [G.export(self.grids[k]) for k in self.keys] if with_sets else []
         consts = dict(Kinds={"cart", "simplex"}, Sizes={tuple(n) for n in sizes}, Variants={"plain", "perturbed"},
                       Mus=set(mus), Lams=set(lams), BcModes=set(bcmodes), Fields=[f_["G"] for f_ in FIELDS],
+                      Coefs=tlc.Raw("{" + ", ".join(tlc.tla(c) for c in (coefs or [dict(alpha=0, p=0)])) + "}"),
+                      AlphaCat=[list(map(list, a)) for a in alphacat],
                       Grids=exported, MaxNeu=max_neu)  # inline: a genuine constant, so TLC evaluates AdmSets once
         m, cf = tlc.gen(ctx.work / f"enum{len(ctx.tlc_runs)}", "MC_MechEnum", "MechOracleEnum", consts, spec="Spec",
                         invariants=["Emit", "LawsCfg", "LawFamily"])
         res = ctx.tlc(m, cf, workers=4, allow_violation=False)
         self.configs = [r for r in res.records if "kind" in r]
-        self.configs.sort(key=lambda r: (len(r["n"]), r["kind"], r["n"], r["variant"], r["mu"], r["lam"], r["bc"]))
+        self.configs.sort(key=lambda r: (len(r["n"]), r["kind"], r["n"], r["variant"], r["mu"], r["lam"], r["bc"],
+                                         r["coef"]["alpha"], r["coef"]["p"]))
         self.neusets = {k: [] for k in self.keys}
         for r in res.records:
             if "neu" in r:
